@@ -32,6 +32,9 @@ Rules applied to extracted text (recorded in evidence as coverage.extraction.dro
     10c: `path::m(self.as_mut(), args)` -> `self.m(args)`
  12 (opt-in, `closure N params=".." ret=".."`) the N-th closure of the body gets typed parameters, a named return value and
     a contract (`|p| e` -> `|p: &T| -> (o: R) ensures .. { e }`); the closure body is untouched
+ 10d (opt-in, `unproject`) pin_project plumbing: `let this = self.project();` deleted, `*this.f`/`this.f` -> `self.f`,
+    `this.f.as_mut()` -> `Pin::new(&mut self.f)`, `self.as_mut().project().f` -> `self.f`, `self.as_mut().m(` -> `self.m(`
+ 14 (opt-in, `unguard`) `match e { P if g => a, _ => b }` -> `match e { P => if g { a } else { b }, _ => b }`
  13 (opt-in, `emit_as X`) the function is emitted under the identifier X (same text verified against another part of its contract)
 """
 import hashlib
@@ -175,6 +178,10 @@ def build(template_path, repo, out_path, drop_tags=()):
                 text, base = _extract_text(src, toks, st, en)
             edits = _common_edits(text, unit, keepvis=("keepvis" in opts))
             text2 = rslex.apply_edits(text, edits)
+            if "nopin" in opts:
+                # pin_project's field marker `#[pin]` (inert without the derive) is removed
+                text2, npin = re.subn(r"#\[pin\]\s*", "", text2)
+                unit.drops["pin_field_markers_removed"] = unit.drops.get("pin_field_markers_removed", 0) + npin
             m = re.search(r"attrs=(.*)$", opts)
             if m:
                 text2 = m.group(1) + "\n" + text2
@@ -197,6 +204,8 @@ def build(template_path, repo, out_path, drop_tags=()):
             loopspec = {}
             body_prefix = []
             oname = None
+            unproject = False
+            unguard = False
             emit_as = None
             closurespec = {}
             cur = contract
@@ -214,6 +223,10 @@ def build(template_path, repo, out_path, drop_tags=()):
                         assoc = d[6:].strip()
                     elif d == "unpin_receiver":
                         unpin = True
+                    elif d == "unproject":
+                        unproject = True
+                    elif d == "unguard":
+                        unguard = True
                     elif d == "name_wildcard_closure_params":
                         wild = True
                     elif d.startswith("name "):
@@ -356,6 +369,134 @@ def build(template_path, repo, out_path, drop_tags=()):
                         nren += 1
                 unit.drops["pinned_receivers_unwrapped"] = unit.drops.get("pinned_receivers_unwrapped", 0) + 1
                 unit.drops["alias_this_renamed_to_self"] = unit.drops.get("alias_this_renamed_to_self", 0) + nren
+            if unproject:
+                # rule 10d (pin_project plumbing, `Self: Unpin` view): receiver `[mut] self: Pin<&mut Self>` -> `&mut self`;
+                # `let [mut] this = self.project();` deleted; `*this.f` and `this.f.m(..)` -> `self.f`; `this.f` as a value -> `(&mut self.f)`;
+                # `this.f.as_mut()` (a #[pin] field re-pinned) -> `Pin::new(&mut self.f)`;
+                # `self.as_mut().project().f` -> `self.f`; `self.as_mut().m(` -> `self.m(`
+                T = [t.t for t in ltoks]
+                n = len(ltoks)
+                want1 = ["self", ":", "Pin", "<", "&", "mut", "Self", ">"]
+                h1 = [k for k in range(n - len(want1) + 1) if T[k:k + len(want1)] == want1]
+                if len(h1) != 1:
+                    raise ExtractError("rule 10d: expected exactly one `self: Pin<&mut Self>`")
+                k0 = h1[0] - 1 if h1[0] > 0 and T[h1[0] - 1] == "mut" else h1[0]
+                edits.append((ltoks[k0].s, ltoks[h1[0] + len(want1) - 1].e, "&mut self"))
+                nre = 0
+                k = 0
+                gone = [(e0, e1) for (e0, e1, _r) in edits if e1 > e0]
+                while k < n:
+                    if any(e0 <= ltoks[k].s and ltoks[k].e <= e1 for (e0, e1) in gone):
+                        k += 1
+                        continue
+                    # let [mut] this = self.project();
+                    if T[k] == "let":
+                        j = k + 1
+                        if T[j] == "mut":
+                            j += 1
+                        if T[j:j + 8] == ["this", "=", "self", ".", "project", "(", ")", ";"]:
+                            edits.append((ltoks[k].s, ltoks[j + 7].e, ""))
+                            k = j + 8
+                            nre += 1
+                            continue
+                    # self.as_mut().project().f  /  self.as_mut().m(
+                    if T[k:k + 6] == ["self", ".", "as_mut", "(", ")", "."]:
+                        if T[k + 6:k + 10] == ["project", "(", ")", "."]:
+                            edits.append((ltoks[k].s, ltoks[k + 9].e, "self."))
+                            k += 10
+                        else:
+                            edits.append((ltoks[k].s, ltoks[k + 5].e, "self."))
+                            k += 6
+                        nre += 1
+                        continue
+                    if T[k] == "this" and ltoks[k].k == "id" and k + 2 < n and T[k + 1] == ".":
+                        star = k > 0 and T[k - 1] == "*"
+                        if T[k + 3:k + 7] == [".", "as_mut", "(", ")"]:
+                            a0 = ltoks[k - 1].s if star else ltoks[k].s
+                            edits.append((a0, ltoks[k + 6].e, f"Pin::new(&mut self.{T[k + 2]})"))
+                            k += 7
+                        elif star or (k + 3 < n and T[k + 3] == "."):
+                            # `*this.f` (the place) or `this.f.m(..)` (auto-ref'd method call): the field itself
+                            a0 = ltoks[k - 1].s if star else ltoks[k].s
+                            edits.append((a0, ltoks[k].e, "self"))
+                            k += 1
+                        else:
+                            # `this.f` used as a value: it is the projected `&mut` to the field
+                            edits.append((ltoks[k].s, ltoks[k + 2].e, f"(&mut self.{T[k + 2]})"))
+                            k += 3
+                        nre += 1
+                        continue
+                    k += 1
+                unit.drops["pin_projections_unwrapped"] = unit.drops.get("pin_projections_unwrapped", 0) + nre
+            if unguard:
+                # rule 14: `match e { P if g => a, _ => b }` -> `match e { P => if g { a } else { b }, _ => b }` for a match
+                # whose ONLY other arm is the wildcard (same program: a failed guard falls through to `_`).  Needed because
+                # Verus loses the connection between `self` and `final(self)` at a `return` in the arm after a guarded arm
+                # (reproduced on a 6-line example).
+                T = [t.t for t in ltoks]
+                n14 = 0
+                for k in range(len(ltoks)):
+                    if T[k] != "match" or ltoks[k].k != "id":
+                        continue
+                    # body open: first `{` at paren depth 0
+                    j = k + 1
+                    d = 0
+                    while j < len(ltoks) and not (d == 0 and T[j] == "{"):
+                        if T[j] in ("(", "["):
+                            d += 1
+                        elif T[j] in (")", "]"):
+                            d -= 1
+                        j += 1
+                    if j >= len(ltoks):
+                        continue
+                    close = rslex.match_close(ltoks, j)
+                    # split arms at depth 0
+                    arms = []
+                    a0 = j + 1
+                    d = 0
+                    x = j + 1
+                    m_arrow = None
+                    m_guard = None
+                    while x < close:
+                        t = T[x]
+                        if t in ("(", "[", "{"):
+                            if t == "{" and d == 0 and m_arrow is not None and x == m_arrow + 1:
+                                # block-bodied arm: ends at its closing brace (optional comma)
+                                e = rslex.match_close(ltoks, x)
+                                arms.append((a0, m_guard, m_arrow, e))
+                                x = e + 1
+                                if x < close and T[x] == ",":
+                                    x += 1
+                                a0 = x
+                                m_arrow = None
+                                m_guard = None
+                                continue
+                            d += 1
+                        elif t in (")", "]", "}"):
+                            d -= 1
+                        elif d == 0 and t == "=>" and m_arrow is None:
+                            m_arrow = x
+                        elif d == 0 and t == "if" and m_arrow is None and m_guard is None:
+                            m_guard = x
+                        elif d == 0 and t == "," and m_arrow is not None:
+                            arms.append((a0, m_guard, m_arrow, x - 1))
+                            a0 = x + 1
+                            m_arrow = None
+                            m_guard = None
+                        x += 1
+                    if m_arrow is not None and a0 < close:
+                        arms.append((a0, m_guard, m_arrow, close - 1))
+                    if len(arms) == 2 and arms[0][1] is not None and arms[1][1] is None \
+                            and arms[1][2] == arms[1][0] + 1 and T[arms[1][0]] == "_":
+                        (s0, g, ar, e0), (s1, _g, ar1, e1) = arms
+                        cond = text[ltoks[g + 1].s:ltoks[ar - 1].e]
+                        body0 = text[ltoks[ar + 1].s:ltoks[e0].e]
+                        body1 = text[ltoks[ar1 + 1].s:ltoks[e1].e]
+                        edits.append((ltoks[g].s, ltoks[e0].e, f"=> if {cond} {{ {body0} }} else {{ {body1} }}"))
+                        n14 += 1
+                if n14 == 0:
+                    raise ExtractError("rule 14: no `match` of the shape `P if g => a, _ => b`")
+                unit.drops["guarded_arms_rewritten"] = unit.drops.get("guarded_arms_rewritten", 0) + n14
             if emit_as:
                 # rule 13: the function is emitted under another identifier, so that the same body can be verified a
                 # second time against another part of its contract (keeps each solver query small)
@@ -373,6 +514,13 @@ def build(template_path, repo, out_path, drop_tags=()):
                 edits.append((ltoks[bol].e, ltoks[bol].e, "\n" + "\n".join(body_prefix) + "\n"))
             bcl = rslex.match_close(ltoks, bol)
             loops = rslex.loops_in(ltoks, bol + 1, bcl)
+            if loopspec and len(loops) == 0:
+                # the function no longer contains ANY loop: its loop invariants have nothing to attach to and are not
+                # needed; the function contract is still checked (a `while` turned into an `if` must fail on its
+                # postcondition, not end as a lost anchor).  A function that still has loops, but fewer than the
+                # contract names, remains a lost anchor: an invariant could then land on the wrong loop.
+                unit.drops["loop_contracts_without_loop"] = unit.drops.get("loop_contracts_without_loop", 0) + len(loopspec)
+                loopspec = {}
             for n, ls in loopspec.items():
                 if n >= len(loops):
                     raise ExtractError(f"anchor lost: `{path[-1]}` has {len(loops)} loops, contract names loop {n}")
